@@ -37,10 +37,10 @@ func init() { reg.Register("C10", Run) }
 
 // Case is one replayable execution.
 type Case struct {
-	Kind     string   `json:"kind"`           // diff | lift | funcs | live | conc | cli | pin
-	Tpl      string   `json:"tpl"`            // template under test (for funcs: the call site)
-	Ref      string   `json:"ref,omitempty"`  // reference template (lifted / inlined)
-	File     string   `json:"file,omitempty"` // funcs file text
+	Kind     string   `json:"kind"`            // diff | lift | funcs | live | conc | cli | pin
+	Tpl      string   `json:"tpl"`             // template under test (for funcs: the call site)
+	Ref      string   `json:"ref,omitempty"`   // reference template (lifted / inlined)
+	File     string   `json:"file,omitempty"`  // funcs file text
 	Files    []string `json:"files,omitempty"` // cli: the same definitions spread over several funcs files (File is their concatenation)
 	Ctxs     []Ctx    `json:"ctxs,omitempty"`
 	RefCtxs  []Ctx    `json:"ref_ctxs,omitempty"` // contexts of the reference (lift); default Ctxs
@@ -397,6 +397,7 @@ func Run(c *run.Ctx) {
 	phase("clock", func() { clockValues(c) })
 	phase("cli", func() { cliCases(c) })
 	phase("cliflags", func() { cliFlagCases(c) })
+	phase("format-funcs", func() { formatFuncsCases(c) })
 	if n := atomic.LoadInt64(&nJudged); n > 200 && atomic.LoadInt64(&nAbstain)*5 > n {
 		c.Inconclusive(fmt.Sprintf("abstained on %d of %d cases (compile errors / panics / funcs files that do not load): too little was judged", nAbstain, n))
 	}
